@@ -8,6 +8,7 @@ import (
 	"fmt"
 	"math/rand"
 	"os"
+	"runtime/debug"
 	"sort"
 
 	"github.com/syndtr/goleveldb/leveldb"
@@ -233,6 +234,16 @@ func (rv *rview) content() map[string][]byte {
 	return m
 }
 
+// underSubset: the keys of this view are relative to a Subset prefix (which never starts with a frontier-key byte)
+func (rv *rview) underSubset() bool {
+	for v := rv; v != nil; v = v.parent {
+		if v.sub != nil {
+			return true
+		}
+	}
+	return false
+}
+
 func sortedKeys(m map[string][]byte) []string {
 	ks := make([]string, 0, len(m))
 	for k := range m {
@@ -252,6 +263,15 @@ func genKey(rng *rand.Rand) []byte {
 		k[i] = alphabet[rng.Intn(len(alphabet))]
 	}
 	return k
+}
+
+// genKeyE: keys for WRITES (commit patches, writes through views): now and then the zero-length key, which is a key like
+// any other for the store (at top level it sorts before everything; inside a Subset it is the key equal to the prefix)
+func genKeyE(rng *rand.Rand) []byte {
+	if rng.Intn(10) == 0 {
+		return []byte{}
+	}
+	return genKey(rng)
 }
 func genVal(rng *rand.Rand) []byte {
 	switch rng.Intn(5) {
@@ -285,7 +305,7 @@ func genPatch(rng *rand.Rand, existing []string) []pop {
 		if len(existing) > 0 && rng.Intn(2) == 0 {
 			k = []byte(existing[rng.Intn(len(existing))])
 		} else {
-			k = genKey(rng)
+			k = genKeyE(rng)
 		}
 		if rng.Intn(3) == 0 {
 			ops = append(ops, pop{true, k, nil})
@@ -583,8 +603,12 @@ func (s *seqRun) doRead(slot int, rv *rview) {
 
 func (s *seqRun) doWrite(slot int, rv *rview) {
 	k := s.someKey(rv)
-	if len(k) == 0 || k[0] < 3 {
-		k = genKey(s.rng)
+	if len(k) > 0 && k[0] < 3 {
+		k = genKey(s.rng) // never the manager's own frontier keys (canonVal reads their values as hash-heights)
+	}
+	if s.rng.Intn(8) == 0 {
+		k = []byte{} // the zero-length key (inside a Subset: the key equal to the prefix)
+		s.tag["view-write-empty-key"] = true
 	}
 	switch s.rng.Intn(4) {
 	case 0:
@@ -693,7 +717,11 @@ func runSeq(rng *rand.Rand, out *Out, steps int, mode string) {
 	defer func() {
 		// a panic inside the store is a failure of the property (an operation must answer or refuse)
 		if r := recover(); r != nil {
-			out.Oracle(false, "store-panic", M{"panic": fmt.Sprint(r), "ops_so_far": len(s.ops)})
+			st := string(debug.Stack())
+			if len(st) > 2500 {
+				st = st[:2500]
+			}
+			out.Oracle(false, "store-panic", M{"panic": fmt.Sprint(r), "ops_so_far": len(s.ops), "stack": st})
 		}
 	}()
 	if mode == "deep" {
